@@ -3,14 +3,15 @@
 
   requests
     obj <id> hdr <footerOff> <walSize> <walSeq>
-    obj <id> rec <seq> <size> ins <sum> <len> <sup|->   |  obj <id> rec <seq> <size> tomb <target>  |  obj <id> rec <seq> <size> lex
-    obj <id> toc <len> <frames off:len:sum:status,…|-> <segs off:len:id,…|->
+    obj <id> rec <seq> <size> ins <sum> <len> <sup|-> <need> <parentSeq|->   |  obj <id> rec <seq> <size> tomb <target>  |  obj <id> rec <seq> <size> lex
+    obj <id> toc <len> <frames off:len:sum:status[:need:parent+1],…|-> <segs off:len:id,…|->
     obj <id> foot <tocId> <tocLen>
         → "ok"                       (the environment is append-only, state of the driver)
     recover <hdrSize> <footSize> <recHdr> <zeroProbe> <rle>
         rle = comma-separated runs  z:<n>  (n zero cells)  |  <id>:<start>:<n>  (cells (id,start)…(id,start+n-1))
         → "fail <stage>"  |  "ok <replayed> <viaScan 0|1> <frames status:sum:R|E,…|->"
-    emit staged <nInner>     → canonical token list of the copy-and-rename protocol (tie #1)
+    emit staged <kinds w|t|f,…> → canonical token list of the copy-and-rename protocol around the given
+                                 inner pwrite/ftruncate/fsync sequence on the temp file (tie #1)
     emit put | putfixed      → canonical token list of the put protocol
     reset                    → "ok"
 -/
@@ -26,9 +27,11 @@ def parseTriples (s : String) : Option (List (List Nat)) :=
 def parseObj (ws : List String) : Option Obj :=
   match ws with
   | ["hdr", a, b, c] => do pure (.hdr { footerOff := ← a.toNat?, walSize := ← b.toNat?, walSeq := ← c.toNat? })
-  | ["rec", sq, sz, "ins", sm, ln, sup] => do
+  | ["rec", sq, sz, "ins", sm, ln, sup, need, par] => do
       let sup' ← if sup == "-" then some none else sup.toNat?.map some
-      pure (.wrec (← sq.toNat?) (← sz.toNat?) (.insert (← sm.toNat?) (← ln.toNat?) sup'))
+      let par' ← if par == "-" then some none else par.toNat?.map some
+      pure (.wrec (← sq.toNat?) (← sz.toNat?)
+        (.insert { sum := ← sm.toNat?, len := ← ln.toNat?, supersedes := sup', need := ← need.toNat?, parentSeq := par' }))
   | ["rec", sq, sz, "tomb", t] => do pure (.wrec (← sq.toNat?) (← sz.toNat?) (.tomb (← t.toNat?)))
   | ["rec", sq, sz, "lex"] => do pure (.wrec (← sq.toNat?) (← sz.toNat?) .lex)
   | ["toc", ln, fr, sg] => do
@@ -36,6 +39,9 @@ def parseObj (ws : List String) : Option Obj :=
       let sgs ← parseTriples sg
       let frames ← frs.mapM (fun l => match l with
         | [o, n, sm, st] => some ({ off := o, len := n, sum := sm, status := st } : FrameS)
+        | [o, n, sm, st, need, par] =>
+          some ({ off := o, len := n, sum := sm, status := st, need := need,
+                  parent := if par = 0 then none else some (par - 1) } : FrameS)
         | _ => none)
       let segs ← sgs.mapM (fun l => match l with
         | [o, n, i] => some (o, n, i)
@@ -93,12 +99,11 @@ def crashStep (s : DState) (ws : List String) : DState × String :=
     | some hs, some fs, some rh, some zp, some img =>
       (s, showOutcome (recover s.lookup { hdrSize := hs, footSize := fs, recHdr := rh, zeroProbe := zp } img))
     | _, _, _, _, _ => (s, "bad-op")
-  | ["emit", "staged", n] =>
-    match n.toNat? with
-    | some n =>
-      let inner : List (Disk.Sys Nat) := List.replicate n (.pwrite 1 0 [])
-      (s, " ".intercalate ((Emit.stagedCommit "t" "p" 0 1 0 [] [] inner 0 []).map tok))
-    | none => (s, "bad-op")
+  | ["emit", "staged", kinds] =>
+    let ks := if kinds == "-" then [] else kinds.splitOn ","
+    let inner : List (Disk.Sys Nat) := ks.map (fun k =>
+      if k == "w" then Disk.Sys.pwrite 1 0 [] else if k == "t" then Disk.Sys.ftruncate 1 0 else Disk.Sys.fsync 1)
+    (s, " ".intercalate ((Emit.stagedCommit "t" "p" 0 1 0 [] [] inner 0 []).map tok))
   | ["emit", "put"] => (s, " ".intercalate ((Emit.putProto 0 0 ([] : List Nat) []).map tok))
   | ["emit", "putfixed"] => (s, " ".intercalate ((Emit.putProtoFixed 0 0 ([] : List Nat) []).map tok))
   | ["reset"] => ({ env := [] }, "ok")
